@@ -268,10 +268,27 @@ Inductive op :=
     (* two reports of conn c in quick succession, oa first: the first is still
        inside shouldRecordObservation (stalled at its listenAddrs() call) when
        the second is queued.  With the single worker they are applied in order *)
-| ObserveDuring (c : Z) (oa : obsaddr) (d : Z).
+| ObserveDuring (c : Z) (oa : obsaddr) (d : Z)
     (* as Observe, but conn d is closed and its Disconnected notification is
        delivered while the worker is inside shouldRecordObservation, at the
        listenAddrs() call, i.e. before maybeRecordObservation takes o.mu *)
+| SetListen (ls : list laddr)
+    (* the environment: from now on listenAddrs() returns ls (a listener was
+       closed / opened, an interface address went away); open connections stay
+       open and the manager is not told *)
+| SetThresh (n : Z).
+    (* the environment: the exported package variable ActivationThresh is set
+       to n (it is read by AddrsFor / Addrs at every call) *)
+
+(* The environment part of the configuration after an operation: listenAddrs()
+   and ActivationThresh are not state of the Manager; the Manager reads them
+   when it needs them.  Connections, cap and queried addresses never change. *)
+Definition env_step (cfg : config) (o : op) : config :=
+  match o with
+  | SetListen ls => mkCfg (thresh cfg) (cap cfg) ls (queries cfg) (conns cfg)
+  | SetThresh n => mkCfg n (cap cfg) (listen cfg) (queries cfg) (conns cfg)
+  | _ => cfg
+  end.
 
 (* does shouldRecordObservation get as far as calling listenAddrs()?  (after
    the nil / loopback / NAT64 / relay checks and the thin-waist form of the
@@ -298,6 +315,8 @@ Definition step (cfg : config) (st : state) (o : op) : state :=
          after the interleaved removeConn: [record] sees the new closed set *)
       if hook_fires cfg c oa then record cfg (disconnect cfg st d) c oa
       else record cfg st c oa
+  | SetListen _ => st     (* nothing of the Manager changes *)
+  | SetThresh _ => st
   end.
 
 (* was the during-observation disconnect delivered? *)
@@ -317,14 +336,24 @@ Definition observe (cfg : config) (st : state) (f : bool) : obs :=
 Fixpoint run (cfg : config) (st : state) (ops : list op) : state :=
   match ops with
   | [] => st
-  | o :: r => run cfg (step cfg st o) r
+  | o :: r => run (env_step cfg o) (step cfg st o) r
   end.
 
+(* the configuration (listen set, threshold) current after the operations *)
+Fixpoint cfg_after (cfg : config) (ops : list op) : config :=
+  match ops with
+  | [] => cfg
+  | o :: r => cfg_after (env_step cfg o) r
+  end.
+
+(* the answers after an operation are read in the environment as it is after
+   that operation *)
 Fixpoint trace (cfg : config) (st : state) (ops : list op) : list (op * obs) :=
   match ops with
   | [] => []
   | o :: r => let st' := step cfg st o in
-              (o, observe cfg st' (fired cfg o)) :: trace cfg st' r
+              let cfg' := env_step cfg o in
+              (o, observe cfg' st' (fired cfg o)) :: trace cfg' st' r
   end.
 
 (* addrs_manager.appendObservedAddrs: the host takes at most
